@@ -377,7 +377,7 @@ func genPos(t *rapid.T) PosCase {
 		c.Params = p("[" + strings.Join(append(elems, "1"), ",") + "]")
 	case 5: // wrong element type somewhere
 		if len(elems) > 0 {
-			elems[rapid.IntRange(0, len(elems)-1).Draw(t, "wrong")] = rapid.SampledFrom([]string{`{"zz":[1]}`, `"str"`, `[[1]]`, `1.5`}).Draw(t, "wv")
+			elems[rapid.IntRange(0, len(elems)-1).Draw(t, "wrong")] = rapid.SampledFrom([]string{`{"zz":[1]}`, `"str"`, `[[1]]`, `1.5`, `5.0`, `1e2`, `18446744073709551616`}).Draw(t, "wv")
 		}
 		c.Params = p("[" + strings.Join(elems, ",") + "]")
 	case 6, 7: // object over a subset / superset of the names
